@@ -797,9 +797,15 @@ func parseStringLiteral(literal string) (string, error) {
 				fallthrough
 			case '1', '2', '3', '4', '5', '6', '7':
 				// TODO strict
+				// B.1.2: ZeroToThree OctalDigit OctalDigit | FourToSeven OctalDigit,
+				// the value of an octal escape never exceeds \377.
 				value = rune(chr) - '0'
+				digits := 2
+				if chr >= '4' {
+					digits = 1
+				}
 				j := 0
-				for ; j < 2; j++ {
+				for ; j < digits; j++ {
 					if len(str) < j+1 {
 						break
 					}
